@@ -1908,6 +1908,8 @@ class Rule(metaclass=LogicalType):
                         f"prefixItems required prefix: [{i}] not provided", item=i
                     )
                 )
+                # collected: there is no value[i] to convert
+                continue
 
             with context.enter(route=i) as arg_context:
                 try:
